@@ -1,6 +1,7 @@
 mod c01;
 mod c02;
 mod c03;
+mod c04;
 mod c07;
 mod c09;
 mod c10;
@@ -26,6 +27,7 @@ fn main() {
         "c01" => c01::run(&args),
         "c02" => c02::run(&args),
         "c03" => c03::run(&args),
+        "c04" => c04::run(&args),
         "c07" => c07::run(&args),
         "c09" => c09::run(&args),
         "c10" => c10::run(&args),
